@@ -153,7 +153,7 @@ def mutate(t, rng, tg, n=1):
     for _ in range(n):
         allnodes = list(nodes_of(t))
         path, node = rng.choice(allnodes)
-        op = rng.choice(["drop", "dup", "swap", "rename", "content", "attr", "graft", "unknown", "attrdrop", "typed"])
+        op = rng.choice(["drop", "dup", "swap", "rename", "content", "attr", "graft", "unknown", "attrdrop", "typed", "ghost"])
         kids = node[8]
         if op == "drop" and kids:
             kids.pop(rng.randrange(len(kids)))
@@ -178,6 +178,20 @@ def mutate(t, rng, tg, n=1):
             node[5][:] = [[k, v] for k, v in d.items()]
         elif op == "attrdrop" and node[5]:
             node[5].pop(rng.randrange(len(node[5])))
+        elif op == "ghost":
+            # a child its parent's rule allows although no element of that name is known (computed from the live tables)
+            import lang
+            cands = []
+            for _, x in allnodes:
+                rn = tg.ri.mappings.get(x[1]); sp = tg.ri.spec.get(rn) if rn else None
+                if sp is not None:
+                    for c in dict.fromkeys(lang.names(sp)):
+                        if c not in tg.ri.mappings:
+                            cands.append((x, c))
+            if not cands:
+                continue
+            x, c = rng.choice(cands)
+            x[8].insert(rng.randint(0, len(x[8])), impl.T(c, None, [impl.T("title", "t")] if rng.random() < 0.5 else []))
         elif op == "graft":
             e = rng.choice(known)
             if tg.productive(e):
@@ -186,6 +200,31 @@ def mutate(t, rng, tg, n=1):
             continue
         desc.append((op, list(path)))
     return desc
+
+
+def ghost_pairs(ri):
+    """(element, child name) pairs where the element's rule allows a child for which no element is known (from the live tables)"""
+    import lang
+    out = []
+    for el, rn in ri.mappings.items():
+        sp = ri.spec.get(rn)
+        if sp is not None:
+            for c in dict.fromkeys(lang.names(sp)):
+                if c not in ri.mappings:
+                    out.append((el, c))
+    return out
+
+
+def ghost_tree(rng, tg):
+    """a smallest tree of an element that allows a 'ghost' child, with that child (and something below it) put in"""
+    import impl
+    pairs = [p for p in ghost_pairs(tg.ri) if tg.productive(p[0])]
+    if not pairs:
+        return None
+    el, c = rng.choice(pairs)
+    t = tg.min_tree(el, rng)
+    t[8].insert(rng.randint(0, len(t[8])), impl.T(c, None, [impl.T("title", "t", [impl.T("zzDeep", None)])] if rng.random() < 0.6 else []))
+    return t
 
 
 def strip_ids(t):
